@@ -7,6 +7,7 @@ specification's own step operators)."""
 import json
 import random
 
+from vlib import clip as vclip
 from vlib import unreproduced as vlib_unreproduced, Broken, Verdict, log, read_ndjson, write_ndjson, require_coverage
 
 FAMILIES = {
@@ -97,7 +98,7 @@ def normalise(o):
     if o.get("crashed"):
         n["err"] = "CRASHED: " + (o.get("stderr") or "")[:1500]
     elif o.get("hung"):
-        n["err"] = "HUNG: " + (o.get("stderr") or "")[-1500:]
+        n["err"] = "HUNG: " + vclip(o.get("stderr"), 1500)
     else:
         n["err"] = "HARNESS: " + str(o.get("harness_error"))
     return n
